@@ -119,6 +119,11 @@ func Or(a, b bool) bool      { return a || b }
 func Implies(a, b bool) bool { return !a || b }
 func Not(a bool) bool        { return !a }
 
+// Feasible reports whether cond can be true for some input on the current
+// path (engine: a solver query, no fork, no constraint added); natively it is
+// cond itself.
+func Feasible(cond bool) bool { return cond }
+
 // Reach marks a point that must be reached on at least one path.
 func Reach(label string) {}
 
